@@ -175,10 +175,16 @@ def load_pair(ms):
     return _loaded[ms["name"]]
 
 
-def compare(ms, fi, arg, plan, sm_pair, check_tb):
+def compare(ms, fi, arg, plan, sm_pair, check_tb, observer=None):
     sut, model, sm = sm_pair
     rm, tbm = run_case(model, fi, arg, plan, sm)
-    rs, tbs = run_case(sut, fi, arg, plan, sm)
+    if observer is not None:
+        observer.install()
+    try:
+        rs, tbs = run_case(sut, fi, arg, plan, sm)
+    finally:
+        if observer is not None:
+            observer.result = observer.finish()
     d = None
     if rm["log"] != rs["log"]:
         k = 0
@@ -242,15 +248,35 @@ def one_run(check, seed, i, cfg):
     rng = core.rng_for(check, seed, i)
     res = {"probes": {}, "faults": {}, "n": 0, "nontrivial_digests": [], "steps": 0}
     check_tb = cfg.get("check_tb", False)
+    obs_n = [0]
+
+    def mk_observer():
+        if not cfg.get("observer"):
+            return None
+        from . import tracemon
+        obs_n[0] += 1
+        return tracemon.Monitor("profile" if obs_n[0] % 2 else "trace", ms["name"] + ".py", ms.setdefault("spans", tracemon.function_spans(ms["src"])),
+                                   ms.setdefault("f19", sorted(tracemon.funcs_returning_inside_try_finally(ms["src"]))))
     for arg in (0, 1, 2):
-        rm, d, tbd = compare(ms, fi, arg, {}, pair, check_tb)
+        o = mk_observer()
+        rm, d, tbd = compare(ms, fi, arg, {}, pair, check_tb, o)
         nprobes = rm["nprobes"]
-        cases = [({}, rm, d, tbd)]
+        cases = [({}, rm, d, tbd, o)]
         for plan in plans_for(rng, nprobes, cfg["single_cap"], cfg["nmulti"]):
-            rm2, d2, tbd2 = compare(ms, fi, arg, plan, pair, check_tb)
-            cases.append((plan, rm2, d2, tbd2))
-        for plan, rmx, dx, tbdx in cases:
+            o = mk_observer()
+            rm2, d2, tbd2 = compare(ms, fi, arg, plan, pair, check_tb, o)
+            cases.append((plan, rm2, d2, tbd2, o))
+        for plan, rmx, dx, tbdx, ox in cases:
             res["n"] += 1
+            if ox is not None:
+                res["probes"]["events_" + ox.mode] = res["probes"].get("events_" + ox.mode, 0) + ox.events
+                res["probes"]["line_events"] = res["probes"].get("line_events", 0) + ox.line_events
+                if ox.known_f19:
+                    res["probes"]["known_F19_return_event_before_finally"] = res["probes"].get("known_F19_return_event_before_finally", 0) + 1
+                if ox.result and "violation" not in res:
+                    res["violation"] = {"klass": "trace-events:" + ox.result[0]["what"], "detail": {"mode": ox.mode, "problems": ox.result}, "func": fi, "arg": arg,
+                                        "plan": plan, "module": ms["name"], "src": ms["src"], "observer_mode": ox.mode}
+                dx = tbdx = None
             res["steps"] += rmx["nprobes"]
             injected = sum(1 for ev in rmx["log"] if ev and ev[0] == "inject")
             for ev in rmx["log"]:
@@ -378,8 +404,8 @@ def _nprobes(ms, fi, arg):
     return rm["nprobes"]
 
 
-def explore(rep, prop, seed, tier, tag, cflags=(), directives=None, budget=60, check_tb=False):
-    nmods = 8 if tier == "quick" else 16
+def explore(rep, prop, seed, tier, tag, cflags=(), directives=None, budget=60, check_tb=False, extra_cfg=None, nmods=None):
+    nmods = nmods or (8 if tier == "quick" else 16)
     nfuncs = 24
     mods, errors = build_modules(seed, nmods, nfuncs, tag, cflags, directives)
     for e in errors:
@@ -390,6 +416,7 @@ def explore(rep, prop, seed, tier, tag, cflags=(), directives=None, budget=60, c
         return [], mods, {}
     cfg = {"modules": mods, "single_cap": 80 if tier == "quick" else 250, "nmulti": 60 if tier == "quick" else 200,
            "case_timeout_s": 120, "check_tb": check_tb, "prop": prop}
+    cfg.update(extra_cfg or {})
     deadline = time.time() + budget
     total = len(mods) * nfuncs
     rounds = 1 if tier == "quick" else 10 ** 6
